@@ -65,7 +65,9 @@ func (t *Tree) Equal(o *Tree, loose bool) bool {
 	if (t.To == nil) != (o.To == nil) {
 		return false
 	}
-	if t.To != nil && !t.To.Equal(o.To, loose) {
+	// the result of calling a function value is built afresh by every
+	// fingerprint: only its structure is comparable
+	if t.To != nil && !t.To.Equal(o.To, loose || t.K == "func") {
 		return false
 	}
 	return true
